@@ -80,16 +80,21 @@ def fmt(x):
     return "%d | %d" % (lo, lo + 1)
 
 
-def check(ctx, fx, rule="H7"):
+def check(ctx, fx, rule="H7", table=None, floor=8, contains=False, what="the Standard's"):
+    table = LIMITS if table is None else table
     n = 0
-    for q, want in sorted(LIMITS.items()):
+    for q, want in sorted(table.items()):
         fs = fx.fns(q)
+        if not fs:
+            fs = [f for f in fx.functions if f["qname"].endswith("::" + q.split("::")[-1]) and q.split("::")[-1] == f["name"] and
+                  "(anonymous namespace)" in f["qname"] and C.first_party(f)]
         if not fs:
             ctx.broken("%s: %s not found (the table of numeric limits in rules/c10_limits.py names it)" % (rule, q))
         for f in fs:
             got = {}
             want = dict(want)
             min_abs = want.pop("_min", 2)
+            lits = want.pop("_literals", None)
             for nd, st, b in C.all_nodes(f):
                 a = abstract(nd, min_abs)
                 if a is not None:
@@ -98,13 +103,75 @@ def check(ctx, fx, rule="H7"):
                 continue
             n += 1
             missing = sorted(set(want) - set(got), key=str)
-            extra = sorted(set(got) - set(want), key=str)
-            ctx.check(rule, "%s: numeric limits" % f["key"].split("(")[0], not missing and not extra,
+            extra = [] if contains else sorted(set(got) - set(want), key=str)
+            lit_missing = []
+            if lits:
+                have = {nd["v"] for nd, st, b in C.all_nodes(f) if nd.get("k") == "lit" and nd.get("str")}
+                lit_missing = sorted(set(lits) - have)
+            ctx.check(rule, "%s: numeric limits" % f["key"].split("(")[0], not missing and not extra and not lit_missing,
                       "; ".join(fmt(x) for x in sorted(got, key=str)),
-                      "%s%s" % (
+                      "%s%s%s" % (
                           "limit(s) no longer tested: %s. " % "; ".join("%s (%s)" % (fmt(x), want[x]) for x in missing) if missing else "",
                           "unexpected limit(s): %s (expected only %s)" % (
                               "; ".join("%s at %s" % (fmt(x), str(got[x]).replace("/repo/", "")) for x in extra),
-                              "; ".join(fmt(x) for x in sorted(want, key=str))) if extra else ""),
+                              "; ".join(fmt(x) for x in sorted(want, key=str))) if extra else "",
+                          "literal(s) no longer compared against: %s (%s)" % (", ".join(lit_missing), "; ".join(lits[x] for x in lit_missing))
+                          if lit_missing else ""),
                       where=f["loc"].replace("/repo/", ""))
-    ctx.floor(rule, n, 8, "functions whose numeric limits are compared with the Standard's")
+    ctx.floor(rule, n, floor, "functions whose numeric limits are compared with %s" % what)
+
+
+# ---- other properties using the same abstraction ---------------------------------------------------------------------
+PORT_LIMITS_VALIDATOR = {          # C08: the fast validator's port check must be the port state's
+    "ada::(anonymous namespace)::try_can_parse_absolute_fast": {
+        (CUT, 5.5): "a port has at most five significant digits",
+        (CUT, 65535.5): "a port is at most 65535",
+    },
+}
+PORT_LIMITS_PATTERN = {            # C15: URLPattern's port canonicaliser
+    "ada::url_pattern_helpers::canonicalize_port": {
+        (CUT, 5.5): "more than five significant digits is out of range",
+        (PT, 5): "five digits are compared with 65535",
+        "_literals": {"65535": "the largest port"},
+    },
+}
+
+
+def constant_set(f):
+    """the bound of the look-ahead test (`remaining < 2`), the weight 16 and the step 3, as (kind, value) facts"""
+    out = set()
+    for nd, st, b in C.all_nodes(f):
+        a = abstract(nd, 2)
+        if a is not None:
+            out.add(("test",) + a)
+        if nd.get("k") == "bin" and nd.get("op") in ("*", "<<"):
+            for side in (nd["l"], nd["r"]):
+                v = X.const_val(side)
+                if isinstance(v, int) and not isinstance(v, bool) and v >= 2:
+                    out.add(("weight", 1 << v if nd["op"] == "<<" else v))
+        if nd.get("k") == "assign" and nd.get("op") in ("+=",):
+            v = X.const_val(nd["rhs"])
+            if isinstance(v, int) and v >= 2:
+                out.add(("step", v))
+    return out
+
+
+_DEC = {("test", CUT, 1.5), ("weight", 16), ("step", 3)}
+HEX_DECODERS = {                   # C11: percent-decoding arithmetic
+    "ada::unicode::percent_decode": (_DEC, "two more bytes must follow '%' (remaining < 2 fails), value = hi * 16 + lo, three bytes are consumed"),
+    "ada::unicode::form_urlencoded_decode": ({("test", CUT, 15.5), ("weight", 16), ("step", 3)},
+                                             "both nibbles below 16 ((hi | lo) >= 16 is malformed), value = (hi << 4) | lo, three bytes are consumed"),
+}
+
+
+def check_hex_decoders(ctx, fx, rule):
+    n = 0
+    for q, (want, text) in sorted(HEX_DECODERS.items()):
+        f = fx.fn1(q)
+        got = constant_set(f)
+        n += 1
+        ctx.check(rule, "%s: decoding arithmetic" % q.split("::", 1)[1], got == want, ", ".join(str(x) for x in sorted(got, key=str)),
+                  "%s has the arithmetic facts {%s}; decoding an escape is: %s — {%s}" % (
+                      q, ", ".join(str(x) for x in sorted(got, key=str)), text, ", ".join(str(x) for x in sorted(want, key=str))),
+                  where=f["loc"].replace("/repo/", ""))
+    ctx.floor(rule, n, 2, "percent-decoders")
